@@ -616,10 +616,10 @@ void suite_hist(int tier) {
        same size allocated again: the survivor must be untouched (private tables are per instance, shared ones counted) */
     {
         /* "6:3:0:0": an rs_vand instance without parity takes part in the shared-table count like any other */
-        static const char *shp[] = { "6:4:2:2", "6:5:3:3", "6:3:5:5", "3:5:5:3", "0:3:2:2", "6:2:1:1", "6:3:0:0" };
-        for (int a = 0; a < 7; a++) for (int b = 0; b < 7; b++) for (int third = 0; third < 7; third++) {
+        static const char *shp[] = { "6:4:2:2", "6:5:3:3", "6:3:5:5", "3:5:5:3", "0:3:2:2", "6:2:1:1", "6:3:0:0", "6:1:1:1", "6:1:3:3" };
+        for (int a = 0; a < 9; a++) for (int b = 0; b < 9; b++) for (int third = 0; third < 9; third++) {
             if (b == a) continue;
-            if (!tier && a >= 3 && a != 6 && rnd(3)) continue;
+            if (!tier && a >= 3 && a < 6 && rnd(3)) continue;
             if (!tier && third != a && third != b && rnd(3)) continue;
             for (int victim = 0; victim < 2; victim++) {
                 hist_t h; h.nops = 0; h.preset = 0;
